@@ -211,6 +211,11 @@ def check(model, rep, tier):
     want = ["z", "y", "x", "zvec", "yvec", "xvec"]
     rep.ob("S10", "acryo/molecules/core.py::_CSV_COLUMNS", "reserved column names are z, y, x, zvec, yvec, xvec in this order", csv_cols == want, f"{csv_cols}",
            clause="layout", stmt="_CSV_COLUMNS")
+    # a feature that carries a reserved name would replace that coordinate column in the written table (guard shared with C12)
+    f = funcs.get(MC + "to_dataframe")
+    if f is not None:
+        from .C12 import to_dataframe_guard_obligation
+        to_dataframe_guard_obligation(rep, f, "layout")
     # writer table
     f = funcs.get(MC + "to_dataframe")
     if f is not None:
